@@ -68,6 +68,7 @@ TRACE = bool(os.environ.get("PYVC_TRACE"))
 Z3_TIMEOUT_MS = int(os.environ.get("PYVC_Z3_TIMEOUT_MS", "20000"))      # last-resort budget
 Z3_QUICK_MS = int(os.environ.get("PYVC_Z3_QUICK_MS", "1500"))           # first attempt, before cvc5 is asked
 CVC5_TIMEOUT_S = int(os.environ.get("PYVC_CVC5_TIMEOUT_S", "30"))
+UNIT_BUDGET_S = int(os.environ.get("PYVC_UNIT_BUDGET_S", "900"))         # wall-clock budget of one unit (all its paths)
 CVC5 = "/usr/bin/cvc5"
 
 STATS = {"z3_queries": 0, "z3_time": 0.0, "cvc5_queries": 0, "cvc5_time": 0.0, "unknown": 0}
@@ -190,6 +191,8 @@ class Path:
     def check(self, extra=None):
         """sat / unsat / unknown of pc (and extra)."""
         t0 = time.time()
+        if t0 - self.ex.t_start > UNIT_BUDGET_S:
+            raise Unsupported("time budget of the unit exhausted (%d s): undecided, never a verdict" % UNIT_BUDGET_S)
         STATS["z3_queries"] += 1
         if extra is not None:
             self.solver.push()
@@ -581,6 +584,7 @@ class Exploration:
         self.path_models = []  # sampled (trace, model, notes) for CPython cross-check
         self.sample_models = False
         self.sample_limit = 64
+        self.t_start = time.time()
 
     def push(self, prefix):
         self.work.append(prefix)
@@ -598,6 +602,9 @@ class Exploration:
             prefix = self.work.pop()
             if self.paths >= self.max_paths:
                 self.unsupported.append("path budget exhausted (%d)" % self.max_paths)
+                break
+            if time.time() - self.t_start > UNIT_BUDGET_S:
+                self.unsupported.append("time budget of the unit exhausted (%d s): undecided, never a verdict" % UNIT_BUDGET_S)
                 break
             p = Path(self, prefix)
             CUR = p
